@@ -31,7 +31,8 @@ RULE = (
 )
 ASSUMPTIONS = ["dictionary inputs have every key 0..n (as create_bisc_input / read_bisc_file produce)", "oracle: vf/oracle/mesh.py"]
 REQUIRED = ["calls.bisc", "calls.perm_contains_cl_patts_many_shadings", "calls.run_clean_up", "calls.to_sg_format", "calls.maximal_mesh_pattern_of_occurrence",
-            "sound.perms_checked", "complete.perms_checked", "irredundant.cells_checked", "cleanup.bases_checked", "representations.compared", "private_containment.checked", "repeat_calls.compared"]
+            "sound.perms_checked", "complete.perms_checked", "irredundant.cells_checked", "cleanup.bases_checked", "representations.compared", "private_containment.checked", "repeat_calls.compared",
+            "auto_bisc.runs", "auto_bisc.branch.basis_fails_longer_bad_perms", "auto_bisc.branch.basis_fails_good_perms", "auto_bisc.branch.more_patterns_needed"]
 MIN_NONTRIVIAL = 100
 CTX = None
 MON = None
@@ -297,16 +298,45 @@ PROPS = {
 }
 
 
+# mesh-avoidance properties that drive auto_bisc through its retry branches (found by a random search over 560 such properties;
+# which branches a run took is read off the driver's own progress messages and recorded in the evidence)
+AUTO_MESH = {
+    "mesh-a": [[[0, 1], [[0, 2], [1, 0], [2, 1]]], [[0, 1, 2], [[0, 1], [0, 3], [1, 1], [1, 2], [3, 1], [3, 2], [3, 3]]]],
+    "mesh-b": [[[2, 0, 1], [[0, 0], [0, 1], [1, 0], [1, 3], [2, 2], [2, 3]]], [[1, 0, 2], [[0, 1], [1, 2], [1, 3], [2, 3], [3, 0], [3, 1], [3, 3]]]],
+    "mesh-c": [[[1, 2, 0], [[0, 0], [0, 2], [1, 2], [2, 2]]], [[1, 2, 0], [[1, 0], [1, 1], [1, 2], [2, 0], [3, 0], [3, 2], [3, 3]]]],
+    "mesh-d": [[[1, 2, 0], [[1, 0], [1, 3]]], [[1, 2, 0], [[1, 3], [3, 2]]]],
+    "mesh-e": [[[0, 1, 2], [[0, 3], [2, 1], [2, 3]]], [[0, 1, 2], [[1, 0], [1, 2], [1, 3], [2, 1], [2, 3], [3, 0], [3, 1]]], [[0, 1, 2], [[0, 1], [1, 0], [1, 2], [2, 3], [3, 2]]]],
+    "mesh-f": [[[2, 0, 1], [[0, 1], [1, 0], [1, 1]]], [[2, 0, 1], [[0, 1], [0, 3], [1, 2], [3, 1], [3, 3]]]],
+}
+BRANCHES = {"A bad basis was chosen": "auto_bisc.branch.basis_fails_longer_bad_perms", "This is a bad basis": "auto_bisc.branch.basis_fails_good_perms",
+            "No bases found": "auto_bisc.branch.more_patterns_needed", "Need to learn longer patterns": "auto_bisc.branch.longer_patterns_needed"}
+
+
 def chk_auto(ctx, name):
     """auto_bisc on a named property: the returned description coincides with the property on S_0..S_8"""
     CURRENT[0] = [name]
     try:
-        fn = PROPS[name]
-        import types
+        if name in AUTO_MESH:
+            from permuta import MeshPatt
 
-        prop = types.FunctionType(fn.__code__, fn.__globals__, name, fn.__defaults__, fn.__closure__) if not isinstance(fn, types.FunctionType) else fn
-        with quiet():
+            mps = [MeshPatt(Perm(p), [tuple(c) for c in sh]) for p, sh in AUTO_MESH[name]]
+            plain_patts = [(tuple(p), frozenset(tuple(c) for c in sh)) for p, sh in AUTO_MESH[name]]
+
+            def prop(perm):
+                return all(perm.avoids(m) for m in mps)
+
+            fn = lambda perm: M.avoids_all(tuple(perm), plain_patts)  # the property by the oracle's definition
+        else:
+            fn = PROPS[name]
+            import types
+
+            prop = types.FunctionType(fn.__code__, fn.__globals__, name, fn.__defaults__, fn.__closure__) if not isinstance(fn, types.FunctionType) else fn
+        buf = io.StringIO()
+        with contextlib.redirect_stdout(buf):
             sg = BM.auto_bisc(prop)
+        for msg, counter in BRANCHES.items():
+            if msg in buf.getvalue():
+                ctx.count(counter, buf.getvalue().count(msg))
         ctx.ev()
         ctx.count("auto_bisc.runs")
         if sg is None:
@@ -356,6 +386,7 @@ def random_set(rng, n):
 def plan(tier, seed):
     runs = 1200 if tier == "quick" else 8000
     specs = [{"name": f"runs-{i}", "kind": "runs", "count": runs // 16, "nmax": 5 if tier == "quick" else 6} for i in range(16)]
+    specs += [{"name": f"auto-{name}", "kind": "auto", "prop": name} for name in (("mesh-a", "mesh-c", "mesh-d") if tier == "quick" else AUTO_MESH)]
     if tier == "thorough":
         specs += [{"name": f"auto-{name}", "kind": "auto", "prop": name} for name in ("stack_sortable", "smooth", "west_2", "quick_sortable")]
     return specs
